@@ -1621,9 +1621,13 @@ class MatlabWrapper(CheckMixin, FormatMixin):
                         id=self.global_function_id,
                         len=len(collector_func[1].args.list()))
 
-            body += self._wrapper_unwrap_arguments(collector_func[1].args)[1]
+            # Pass the function as the context in which enums are looked up
+            # (the enums of its namespace).
+            body += self._wrapper_unwrap_arguments(
+                collector_func[1].args,
+                instantiated_class=collector_func[1])[1]
             body += self.wrap_collector_function_return(
-                collector_func[1]) + '\n}\n'
+                collector_func[1], collector_func[1]) + '\n}\n'
 
             collector_function += body
 
